@@ -138,8 +138,6 @@ Proof.
     cbn [dropN]. destruct (j =? 0); [exact E|]. apply (IH _ H).
 Qed.
 
-(* regexp_instr: full statement `impl_regexp_instr p cs = Ok (spec_regexp_instr p cs)` is refuted
-   (the engine reports a byte offset); it holds when every character before the match is ASCII *)
 Lemma blen_ascii cs : forallb (fun c => c <? 0x80) cs = true -> blen cs = lenN cs.
 Proof.
   induction cs as [|c cs IH]; [reflexivity|]. cbn [forallb]. intros H.
@@ -166,21 +164,19 @@ Proof.
     intros H. apply G in H. lia.
 Qed.
 
-Lemma regexp_instr_ascii_partial p cs : forallb (fun c => c <? 0x80) cs = true ->
-  impl_regexp_instr p cs = Ok (spec_regexp_instr p cs).
+(* full strength: the position is counted in characters, for every string *)
+Lemma regexp_instr_correct p cs : impl_regexp_instr p cs = Ok (spec_regexp_instr p cs).
 Proof.
-  intros A. unfold impl_regexp_instr, spec_regexp_instr.
+  unfold impl_regexp_instr, spec_regexp_instr.
   destruct (rx_find_start p cs) as [i|] eqn:F; [|reflexivity].
-  rewrite blen_ascii by (apply forallb_takeN, A).
+  rewrite slice_to_blen_take. cbn [bind].
   rewrite lenN_takeN by (eapply rx_find_start_bound, F). reflexivity.
 Qed.
 
-Example regexp_instr_hyp_sat : forallb (fun c => c <? 0x80) [97; 98] = true. Proof. reflexivity. Qed.
-
-(* regexp_instr('日a', 'a') = 4, the definition says 2 *)
-Lemma regexp_instr_refuted :
+(* regression witness about the definition before add0e7ca2: regexp_instr('日a', 'a') = 4 *)
+Lemma old_regexp_instr_refuted :
   let p := {| rx_bol := false; rx_body := Chr (CLit 97); rx_eol := false |} in
-  impl_regexp_instr p [26085; 97] = Ok 4%Z /\ spec_regexp_instr p [26085; 97] = 2%Z.
+  old_impl_regexp_instr p [26085; 97] = Ok 4%Z /\ spec_regexp_instr p [26085; 97] = 2%Z.
 Proof. split; vm_compute; reflexivity. Qed.
 
 (* leftmost start: at the reported position the rest of the pattern matches a prefix, at no
